@@ -142,7 +142,8 @@ type roState struct {
 	readsOK  int
 	combos   map[string]bool
 	// fds opened successfully: fd -> (inode, canonical read-only open)
-	open map[int32]*roFd
+	open  map[int32]*roFd
+	links []string
 }
 
 type roFd struct {
@@ -177,6 +178,14 @@ func (c17) Run(t *tape.Tape, cfg sim.Config) (res sim.Result) {
 	os.Mkdir(filepath.Join(e.root, "d1"), 0o755)
 	mk(d1, filepath.Join(e.root, "d1"), "b", base.payload(3000))
 	buildTree(t, m, m.root, e.root, 0, base)
+	// symbolic links inside the mount (host only; the model has no inode for them, so no liveness
+	// expectation attaches to them): dangling, to a file, to a directory
+	if cfg.Class != "gofs-mapfs" {
+		os.Symlink("no-such-target", filepath.Join(e.root, "ln-dangling"))
+		os.Symlink("a", filepath.Join(e.root, "ln-file"))
+		os.Symlink("d1", filepath.Join(e.root, "ln-dir"))
+		s.links = []string{"ln-dangling", "ln-file", "ln-dir", "ln-dir/new", "ln-dir/b", "d1/../ln-dangling"}
+	}
 	// give everything an old, fixed mtime so that "now" stamps are visible
 	old := time.Unix(1_500_000_000, 0)
 	filepath.Walk(e.root, func(p string, _ os.FileInfo, _ error) error { os.Chtimes(p, old, old); return nil })
@@ -323,7 +332,9 @@ func (s *roState) step() string {
 	case 0: // path_open, full flag space
 		var p string
 		var ino *inode
-		if t.Chance(3, 4) {
+		if len(s.links) > 0 && t.Chance(1, 6) {
+			p = tape.Pick(t, s.links)
+		} else if t.Chance(3, 4) {
 			p, ino = s.existingPath()
 		} else {
 			p = s.pickPath()
@@ -420,6 +431,9 @@ func (s *roState) step() string {
 		return what
 	case 4: // path set_times
 		p, _ := s.existingPath()
+		if len(s.links) > 0 && t.Chance(1, 5) {
+			p = tape.Pick(t, s.links)
+		}
 		flags := uint64(tape.Pick(t, []int{5, 10, 4, 8}))
 		lookup := uint64(t.Choose(2))
 		what := fmt.Sprintf("path_filestat_set_times(%q,lookup=%d,flags=%d)", p, lookup, flags)
@@ -457,6 +471,9 @@ func (s *roState) step() string {
 		return what
 	case 8: // unlink
 		p, _ := s.existingPath()
+		if len(s.links) > 0 && t.Chance(1, 5) {
+			p = tape.Pick(t, s.links)
+		}
 		what := fmt.Sprintf("path_unlink_file(%q)", p)
 		s.attempts++
 		po, pl := s.putPath(offPath1, p)
@@ -607,6 +624,9 @@ func (s *roState) step() string {
 		}
 		names := parseDirents(g.Read(offData, g.U32(offRes)))
 		want := append([]string{".", ".."}, sortedKids(f.ino)...)
+		if f.ino == s.m.root && len(s.links) > 0 {
+			want = append(want, "ln-dangling", "ln-file", "ln-dir")
+		}
 		sort.Strings(names)
 		sort.Strings(want)
 		if strings.Join(names, "\x00") != strings.Join(want, "\x00") {
